@@ -7,6 +7,7 @@ import numpy as np
 from .. import core, symbols
 from ..translate import etdrk as tr_etdrk
 from ..translate import linops as tr_linops
+from ..translate import nonlin as tr_nonlin
 
 ID = "C10"
 PROPS_FILE = "C10"
@@ -19,10 +20,11 @@ ASSUMPTIONS = ["rfftn/irfftn of C04; Nyquist-free fields for the physical-space 
 
 
 def translate(ctx):
-    """Gen/ETDRK.v (stage programs) and Gen/LinOps.v + Gen/OperatorsGen.v (make_incompressible, tied by C10_code_make_incompressible_is_model); both are
-    always attempted"""
+    """Gen/ETDRK.v (stage programs) and Gen/LinOps.v + Gen/OperatorsGen.v (make_incompressible, tied by C10_code_make_incompressible_is_model); and Gen/NonlinFuns.v (ProjectedConvection3d, theorem
+    C10_code_projected_convection_is_divergence_free); all are always attempted"""
     errors = []
-    for name, fn in (("etdrk", tr_etdrk.run), ("linops", tr_linops.run), ("make_incompressible", lambda: tr_linops.run_operators(require=("make_incompressible",)))):
+    for name, fn in (("etdrk", tr_etdrk.run), ("linops", tr_linops.run), ("make_incompressible", lambda: tr_linops.run_operators(require=("make_incompressible",))),
+                     ("nonlin", tr_nonlin.run)):
         try:
             fn()
         except Exception as e:
